@@ -35,6 +35,9 @@ type Job struct {
 	Points []Point       `json:"points"` // run: the points to insert; verify: ignored
 	Expect int           `json:"expect"` // verify: number of _points of the widest table to wait for
 	PaceUs int           `json:"paceUs"`
+	// MaxMemoryRatio > 0: memory cap (every insert then forces a flush of the largest
+	// memstore, flushes are sorted in turn, and the sorter spills into several runs)
+	MaxMemoryRatio float64 `json:"maxMemoryRatio"`
 }
 
 func main() {
@@ -52,10 +55,14 @@ func main() {
 		fmt.Fprintln(os.Stderr, "bad job:", err)
 		os.Exit(2)
 	}
-	opts := &zv.Opts{TickMs: 1000, Stream: "inbound"}
+	opts := &zv.Opts{TickMs: 1000, Stream: "inbound", MaxMemoryRatio: job.MaxMemoryRatio}
 	if *mode == "run" || *mode == "free" {
 		for i := range job.Tables {
 			job.Tables[i].MaxFlush, job.Tables[i].MinFlush = 3, 1 // timer-driven flushes every few ms
+			if job.MaxMemoryRatio > 0 {
+				// under the memory cap it is the inserts that force the flushes (sorted in turn)
+				job.Tables[i].MaxFlush, job.Tables[i].MinFlush = 400, 100
+			}
 		}
 	}
 	if *rec != "" {
